@@ -90,6 +90,8 @@ class Interp:
         self.elem_roots = {}  # uid -> [instance numbers]
         self.elem_occ = []  # (uid, [instance numbers]) per rendered element, document order
         self.provider_count = 0
+        self.collect_errors = False
+        self.errors = []
         self.events = {"slot_filled": 0, "slot_default": 0, "slot_in_default": 0, "slot_in_fill": 0, "fill_in_loop": 0, "dynamic_name": 0, "inject_hit": 0, "inject_default": 0, "max_depth": 0}
 
     # ------------------------------------------------------------------ entry
@@ -254,6 +256,17 @@ class Interp:
                 raise ValueError(k)
 
     def eval_comp(self, n, env, owner, provs, top, depth, in_fill, slot_stack):
+        if not self.collect_errors:
+            return self._eval_comp(n, env, owner, provs, top, depth, in_fill, slot_stack)
+        # error-collection pass: a failing component renders nothing and evaluation goes on, so that every error a
+        # render could meet FIRST under some evaluation order of independent components is found
+        try:
+            return self._eval_comp(n, env, owner, provs, top, depth, in_fill, slot_stack)
+        except Expected as e:
+            self.errors.append((e.exc_class, e.why))
+            return []
+
+    def _eval_comp(self, n, env, owner, provs, top, depth, in_fill, slot_stack):
         cname, opts, body = n[1], n[2], n[3]
         cls = self.p["classes"][cname]
         fills = {}
